@@ -20,6 +20,10 @@ def build_content(form, notes):
         return [[n, o] for (n, o) in notes]
     if form == "nc":
         return NoteContainer(["%s-%d" % (n, o) for (n, o) in notes])
+    if form == "emptylist":  # a list without notes: becomes an empty container (a silent entry that is not None)
+        return []
+    if form == "emptync":
+        return NoteContainer()
     raise ValueError(form)
 
 
@@ -27,6 +31,8 @@ def form_notes(form, notes):
     """the [[name, octave]] a form actually denotes (single-note forms use the first note only)"""
     if form == "bare":
         return [[notes[0][0], 4]]
+    if form in ("emptylist", "emptync"):
+        return []
     if form in ("str", "note"):
         return [list(notes[0])]
     return [list(n) for n in notes]
@@ -35,6 +41,8 @@ def form_notes(form, notes):
 def nc_snapshot(nc):
     if nc is None:
         return None
+    if not hasattr(nc, "notes"):
+        return ["<not a note container: %s>" % type(nc).__name__]
     return [[n.name, n.octave] for n in nc.notes]
 
 
